@@ -28,6 +28,7 @@ type HarnessCfg struct {
 	MaxPaths  int            `json:"maxpaths"`
 	TimeoutS  int            `json:"timeout_s"`
 	What      string         `json:"what"`
+	Solver    string         `json:"solver"` // "" = z3, "cvc5"
 	Params    map[string]int `json:"-"`
 	MapOrders bool           `json:"-"`
 }
@@ -306,8 +307,22 @@ func buildOverlay(hs []HarnessCfg, native bool) (map[string][]byte, []string) {
 			continue
 		}
 		seen[h.Pkg] = true
-		add(filepath.Join(verifDir, "harness", harnessDir(h.Pkg)), filepath.Join(repoDir, h.Pkg))
 		pats = append(pats, "./"+h.Pkg)
+	}
+	// all harness directories are overlaid (harnesses of one package may use exported models of another)
+	dirs, _ := os.ReadDir(filepath.Join(verifDir, "harness"))
+	for _, d := range dirs {
+		if !d.IsDir() {
+			continue
+		}
+		pkg := strings.ReplaceAll(d.Name(), "_", "/")
+		if d.Name() == "root" {
+			pkg = ""
+		}
+		if native && !seen[pkg] {
+			continue
+		}
+		add(filepath.Join(verifDir, "harness", d.Name()), filepath.Join(repoDir, pkg))
 	}
 	return overlay, pats
 }
@@ -372,7 +387,11 @@ func runHarness(prog *ssa.Program, fn *ssa.Function, hc *HarnessCfg, known []Kno
 					break
 				}
 				if z == nil {
-					z = NewSolver(z3bin, qTimeout)
+					bin := z3bin
+					if hc.Solver != "" {
+						bin = hc.Solver
+					}
+					z = NewSolver(bin, qTimeout)
 					if smtlog != "" && w == 0 {
 						f, _ := os.Create(smtlog)
 						z.log = f
